@@ -379,7 +379,9 @@ MANIFEST_TEXT = {
                 "layout theorem (tokenize_layout) is proved of the tokenizer model for every input: a line-break terminator stands between two "
                 "tokens exactly when the text between them contains a line break, the first can end and the second can start an expression; "
                 "none leads, trails or repeats. The same rule (layout_ok) is run on the implementation's tokens, the model's tokens are "
-                "compared with the implementation's, and invariance under re-layout is checked on the implementation directly.",
+                "compared with the implementation's, and invariance under re-layout is checked on the implementation directly. At the parser: "
+                "token lists that differ only in which terminator kind (line break or `;`) separates are accepted together and build the "
+                "same trees (layout_acceptance, layout_same_tree).",
         "design_ref": "DESIGN.md section 4, C10",
         "note": "Trusted: as C09.",
         "technique": "Coq proof of the layout theorem for the tokenizer model over generated tables + generated-table obligation (vm_compute) + executable layout oracle on implementation output + metamorphic re-layout testing",
@@ -602,7 +604,8 @@ MANIFEST_TEXT = {
                 "change neither the set of accepted types nor the outcome (value, stuck reason, divergence): rw_sound; any permutation of "
                 "adjacent function definitions of a group, anywhere in the program, preserves the outcome (permute_value_definitions_outcome), "
                 "and exchanging definitions preserves typability and acceptance by the verified checker (swap_defs_typable_iff, "
-                "infer_swap_defs_accepts). "
+                "infer_swap_defs_accepts); parenthesising any sub-derivation other than the unparenthesised tail of a chain of the same kind "
+                "leaves the raw and final trees unchanged (parens_redundant). "
                 "Genuine violations are recorded findings (D15; D7 and D9 through reordering).",
         "design_ref": "DESIGN.md section 4, C19",
         "note": "Partial proof: acceptance-side invariance of parentheses, reordering and of the implementation's own checker is decided by the stream.",
